@@ -1,10 +1,51 @@
 # claims table, exec'd by mkmanifest.py.  claim(pid, level text, note, DESIGN ref) / na(pid, reason)
+SCOPE = ("Every obligation is discharged by Verus on the function text extracted from /repo on this run, for all arguments, trees, byte contents and history lengths (contracts are state-transition contracts plus inductive invariants, so 'all histories' follows by induction). ")
+
+claim('C01',
+      SCOPE + "Proved: every MemoryFS operation meets the trait contract TC (and its completeness half TC+) over the abstraction tree_of(files) with whole-map frames; every VfsPath primitive meets the path contract PC for ANY backend meeting TC "
+      "(success implies the documented precondition and the exact effect, failure leaves the tree unchanged, occupied create_dir classified by occupant, exactness 'succeeds exactly when' for backends that do not fail spuriously); "
+      "AltrootFS meets TC over the subtree view given PC on the inner layer, hence every altroot stacking does. OverlayFS: see C08-C10. PhysicalFS/OS: assumed to meet TC.",
+      "Assumed: TC for dyn FileSystem at the World boundary (rule R5) - it is proved for MemoryFS and AltrootFS, assumed for PhysicalFS/EmbeddedFS; lock cell store-passing (R4); AltrootFS::read_dir assumed (iterator plumbing).",
+      "DESIGN.md section 5, C01")
+claim('C03',
+      SCOPE + "wf (root is a directory, every entry canonical with a directory parent) is an inductive invariant: MemoryFsImpl::new establishes it, every VfsPath mutator has 'wf(old) ==> wf(final)' proved from its PC clause through the spec-level lemmas of spec/wf.rs, for unrestricted call types "
+      "(wrong-type calls are the proved 'Err ==> unchanged' clauses; MemoryFS create_file/append_file/remove_file/remove_dir/read_dir type checks are proved after the fix commits). Root removal and stale write handles are excluded as in the property text.",
+      "OverlayFS union view: see C09/C10 findings. PhysicalFS assumed.",
+      "DESIGN.md section 5, C03")
+claim('C04',
+      SCOPE + "Proved for the in-memory data path: ReadableFile::read returns exactly content[pos..pos+k]; WritableFile::write/seek follow the Cursor model; flush/drop publish exactly the buffer (tc_publish) keeping created/accessed; create_file starts (empty, 0), append_file starts (old bytes, len); metadata reports bytes.len for files and 0 for directories (representation invariant mem_inv); VfsPath/AltrootFS pass handles and lengths through unchanged.",
+      "Assumed: std::io::Cursor<Vec<u8>> write/seek model (prelude/mem.rs), std::io::copy, PhysicalFS contents (OS).",
+      "DESIGN.md section 5, C04")
+claim('C05',
+      SCOPE + "Proved: MemoryFS exists/metadata/open_file/read_dir all read the same abstraction; MemoryFS::read_dir (rule R19, loop invariant over HashMap::iter) lists exactly the bare child names, each once, errs on files and missing paths; VfsPath::is_file/is_dir = exists && type. walk_dir order is not covered yet.",
+      "Assumed: AltrootFS::read_dir and VfsPath::read_dir name mapping (iterator adapters) until their units land.",
+      "DESIGN.md section 5, C05")
+claim('C06',
+      SCOPE + "Complete functional proof of join_internal (total, rejects exactly trailing slash with length > 1, canonical result equal to the lexical resolution join_spec, '..' at root stays, leading '/' restarts, multi-byte safe char boundaries), parent_internal = parent_spec, filename_internal = filename_spec, extension_internal = ext_spec, "
+      "VfsPath::{join, parent, root, is_root, as_str, filename, extension} with the type invariant canonical(path) established and preserved.",
+      "Trusted: the str prelude (rfind/starts_with/ends_with/contains/indexing specs, byte-offset bridge axioms, split/rsplitn stand-ins R6/R25).",
+      "DESIGN.md section 5, C06")
+claim('C07',
+      SCOPE + "AltrootFS::path(q) = (root.fs, P + q) for every canonical q (confinement lemma lemma_join_of_relative over the proved join contract); every AltrootFS method except read_dir/copy_file is proved to have exactly the TC outcome and effect of the same operation on P + q, viewed through subtree(t, P), "
+      "and the frame changed_only_under(t, t', P): nothing outside P is created, changed or removed.",
+      "Assumed: AltrootFS::read_dir (iterator adapters); PhysicalFS::get_path / PathBuf::join (OS side) not yet under contract.",
+      "DESIGN.md section 5, C07")
+claim('C12',
+      SCOPE + "Proved: From<VfsErrorKind>/From<io::Error> normalise exactly NotFound -> FileNotFound and fill the placeholder path; with_path sets exactly the path and keeps the kind; with_context/with_cause keep both; every VfsPath primitive relabels backend errors with its own path (closure contracts 'relabelled'), get_parent errors name the path or its parent; "
+      "join rejects trailing slashes as InvalidPath naming the argument; MemoryFS classifies missing entries as FileNotFound and occupied create_dir targets as FileExists/DirectoryExists; only create_dir produces those two kinds (kind neutrality).",
+      "Composite operations (copy/move/walk) and OverlayFS are covered once U07/U09 land.",
+      "DESIGN.md section 5, C12")
 claim('C14',
       "Proof, for all contents, positions, offsets and buffer lengths (no bound), that MemoryFS read handles implement the cursor model of spec/cursor.rs: "
       "read returns min(n, remaining) bytes in order, leaves the rest of the buffer and the content untouched and advances by exactly the count; seek(Start|Current|End) lands on base+offset or fails "
-      "without moving when the target is negative or overflows. Every script of read/seek calls follows by induction because the contracts are state-transition contracts on (content, position).",
-      "Write handles are covered relative to an assumed std::io::Cursor<Vec<u8>> model once unit U02 is present; handles of other backends (std::fs::File, rust-embed Cursor) are std types and are assumed.",
+      "without moving when the target is negative or overflows. Write handles: seek/write follow the assumed std::io::Cursor model, flush and drop publish exactly the buffer, create starts empty, append starts at the end of the existing bytes. "
+      "Every script of calls follows by induction because the contracts are state-transition contracts.",
+      "Assumed: std::io::Cursor<Vec<u8>> write/seek model (the write handle delegates to it); handles of other backends (std::fs::File, rust-embed Cursor) are std types.",
       "DESIGN.md section 5, C14")
+claim('C19',
+      SCOPE + "Proved: MemoryFS set_*_time changes exactly the named field of the named entry (whole-map postcondition tc_set_time) and fails unchanged otherwise; flush keeps created/accessed of the previous entry (append preserves creation time); VfsPath and AltrootFS pass the call through with the same effect.",
+      "PhysicalFS/filetime assumed; OverlayFS timestamps: see U09.",
+      "DESIGN.md section 5, C19")
 
 for _pid, _why in {
     'C02': "relational against the operating system: one side of the relation (PhysicalFS/std::fs) can only be assumed, so no contract within reach decides it (DESIGN section 5, C02)",
